@@ -136,7 +136,7 @@ def _cmd(draw, startable=False):
         what = 'exit'
     if what == 'missing':
         return {'kind': 'missing', 'how': draw(st.sampled_from(MISSING))}
-    cmd = {'kind': 'sh', 'form': draw(st.sampled_from(['inline', 'inline', 'file', 'exec'])),
+    cmd = {'kind': 'sh', 'form': draw(st.sampled_from(['inline', 'inline', 'file', 'exec', 'same', 'same'])),
            'out': draw(_TEXT), 'err': draw(_TEXT), 'first': draw(st.sampled_from(['out', 'err'])),
            'exit': 0, 'sig': None}
     if what == 'exit':
@@ -402,9 +402,25 @@ class Exec:
                 os.chmod(path, 0o755)
                 self.clis = [[path]]
             return
+        same = [idx for idx, cmd in enumerate(self.cmds)
+                if cmd['kind'] == 'sh' and cmd['form'] == 'same']
+        if same:
+            # ONE command line for all these commands: a script that counts its calls and
+            # behaves as the k-th of them at its k-th call (identical command lines in one task,
+            # e.g. the same tool run before and after something else, need not end the same way)
+            path = os.path.join(tmp, 'scr', f'{tag}_same.sh')
+            count = os.path.join(tmp, 'scr', f'{tag}_same.count')
+            with open(path, 'w', encoding='utf-8') as fil:
+                fil.write("#!/bin/sh\nn=$(cat '%s' 2>/dev/null || echo 0)\necho $((n+1)) > '%s'\n"
+                          'case "$n" in\n' % (count, count))
+                for k, idx in enumerate(same):
+                    fil.write('%d) %s ;;\n' % (k, _script(self.cmds[idx], idx, self.marker)))
+                fil.write('*) exit 99 ;;\nesac\n')
         for idx, cmd in enumerate(self.cmds):
             if cmd['kind'] == 'missing':
                 self.clis.append(self._missing(cmd['how'], tmp, idx))
+            elif cmd['form'] == 'same':
+                self.clis.append(['/bin/sh', path])
             else:
                 self.clis.append(self._sh(cmd, idx, tmp, tag))
 
@@ -516,6 +532,8 @@ def _input_labels(case, plan, out):
                     lab.append('unstartable-nonlast')
             if exe.ctor not in CODE_CTORS:
                 lab.extend('form-' + c['form'] for c in exe.cmds if c['kind'] == 'sh')
+                if sum(c['kind'] == 'sh' and c['form'] == 'same' for c in exe.cmds) >= 2:
+                    lab.append('identical-command-lines')
         names_so_far |= {exe.name for exe in execs}
         folded = {}
         for exe in execs:
